@@ -148,7 +148,7 @@ def _oracle_tv(case):
 def _corr_tv(ctx, model):
     shapes = [(4,), (5,), (4, 6), (6, 4)]
     dts = ["float32", "float64", "complex64"]
-    nh = ctx.n(7, 60)
+    nh = ctx.n(7, 30)
     for h in range(nh):
         cls_name = ["AnisotropicTVNorm", "IsotropicTVNorm"][int(ctx.rng.integers(0, 2))]
         circ = bool(ctx.rng.integers(0, 2))
@@ -308,7 +308,7 @@ def _loss_case(ctx, model, case):
 
 def _corr_loss(ctx, model):
     kinds = ["SquaredL2Loss(I)", "SquaredL2Loss(Diag)", "PoissonLoss", "SquaredL2AbsLoss"]
-    for i in range(ctx.n(16, 100)):
+    for i in range(ctx.n(16, 60)):
         _loss_case(ctx, model, {"kind": "loss", "cls": kinds[i % 4], "ops": _gen_loss_ops(ctx.rng), "seed": int(ctx.rng.integers(0, 10**6))})
 
 
@@ -507,6 +507,80 @@ def _corr_rng(ctx, model):
             break
         k = k2
 
+
+
+# ==============================================================================================
+# (A5) caches filled inside a jax.jit trace (TVNorm deferred prox operators, LinearOperator lazy adjoint)
+
+
+def _ctx_impl(kind, circ, ops):
+    import jax
+
+    import cache_catalog as cc
+    from scico import functional as F
+    from scico import linop
+
+    if kind == "tv":
+        obj = F.AnisotropicTVNorm(circular=circ)
+        call = lambda a: obj.prox(a, 0.5)  # noqa: E731
+        fresh = lambda a: F.AnisotropicTVNorm(circular=circ).prox(a, 0.5)  # noqa: E731
+    else:
+        mk = lambda: linop.LinearOperator(input_shape=(4,), eval_fn=lambda a: 2.0 * a[::-1] + a, input_dtype=np.float64)  # noqa: E731
+        obj = mk()
+        call = lambda a: obj.adj(a)  # noqa: E731
+        fresh = lambda a: mk().adj(a)  # noqa: E731
+    out = []
+    for k, o in enumerate(ops):
+        x = _tv_input(o["shape"], o["dt"], k)
+        try:
+            # a new function object per jitted call: every jitted call is a new trace (jax.jit would otherwise
+            # reuse the compiled executable and not run the Python code at all)
+            v = jax.jit(lambda a: call(a))(x) if o["jit"] else call(x)
+            ok = cc.same(cc.canon(v), cc.canon(fresh(x)), 2e-4 if o["dt"] == "float32" else 1e-9)
+            out.append("ok" if ok else "wrong-value")
+        except Exception as e:  # noqa: BLE001
+            out.append("leak" if type(e).__name__ == "UnexpectedTracerError" else "err:" + type(e).__name__)
+    return out
+
+
+def _ctx_case(ctx, model, case):
+    ops = case["ops"]
+    impl = _ctx_impl(case["obj"], case.get("circ", True), ops)
+    mops = []
+    t = 0
+    for o in ops:
+        mops.append({"c": t if o["jit"] else -1, "shape": o["shape"], "dtype": DT_CODE[o["dt"]]})
+        if o["jit"]:
+            t += 1
+    want = model.call("ctx", concrete=True, ops=mops)      # documented / repaired behaviour
+    asis = model.call("ctx", concrete=False, ops=mops)     # code of the pinned tree (known findings)
+    ctx.case(case, ("ctx", json.dumps(case, sort_keys=True)) if any(o["jit"] for o in ops) and not all(o["jit"] for o in ops) else None)
+    ctx.count(f"ctx:{case['obj']}")
+    for r in asis:
+        ctx.count(f"ctx:as-is-model:{r}")
+    if impl != want:
+        slug = "tvnorm-jit-tracer-leak" if case["obj"] == "tv" else "linop-lazy-adjoint-tracer-leak"
+
+        def oracle(c, impl=impl):
+            k = next((i for i, r in enumerate(impl) if r != "ok"), None)
+            return None if k is None else {"case": c, "step": k, "result": impl[k],
+                                           "what": "call on an object that was used before (inside/outside jax.jit) fails or differs; a fresh object works"}
+
+        ctx.disagree("cache.ctx", case, impl, want, oracle=oracle, known_id=slug if impl == asis else None)
+
+
+def _corr_ctx(ctx, model):
+    shapes = [[4, 6], [6, 4], [5]]
+    for _ in range(ctx.n(4, 16)):
+        pool = [(shapes[int(ctx.rng.integers(0, 3))], ["float32", "float64"][int(ctx.rng.integers(0, 2))]) for _ in range(2)]
+        ops = []
+        for _ in range(int(ctx.rng.integers(2, 5))):
+            s, d = pool[int(ctx.rng.integers(0, 2))]
+            ops.append({"jit": bool(ctx.rng.integers(0, 2)), "shape": s, "dt": d})
+        _ctx_case(ctx, model, {"kind": "ctx", "obj": "tv", "circ": bool(ctx.rng.integers(0, 2)), "ops": ops})
+    for _ in range(ctx.n(3, 10)):
+        ops = [{"jit": bool(ctx.rng.integers(0, 2)), "shape": [4], "dt": "float64"} for _ in range(int(ctx.rng.integers(2, 5)))]
+        _ctx_case(ctx, model, {"kind": "ctx", "obj": "linop", "ops": ops})
 
 # ==============================================================================================
 # (B) multi-mode / multi-history differential runner
@@ -763,6 +837,8 @@ def _run_corpus(ctx, model):
             _loss_case(ctx, model, c)
         elif c["kind"] == "attach":
             _attach_case(ctx, model, c["family"], c["helpers"])
+        elif c["kind"] == "ctx":
+            _ctx_case(ctx, model, c)
 
 
 def correspond(ctx, model):
@@ -772,6 +848,7 @@ def correspond(ctx, model):
     _corr_loss(ctx, model)
     _corr_attach(ctx, model)
     _corr_rng(ctx, model)
+    _corr_ctx(ctx, model)
     _corr_mutation(ctx)
     _corr_modes(ctx)
 
